@@ -158,6 +158,8 @@ def run(prog, rep, tier, cfg):
             X.arg_has('K10', 'withdraw_from_escrow:floor-of-same-party', c, 1, ['P:3'], 'locked balance of the same party', narrow=False)
     rep.need('K10', 'withdraw_from_escrow:returns-extracted', has_atom(prog.narrow.local(WE, 0), 'C:BalanceTable::<BS>::subtract_with_minimum'), 'returns what was extracted', X.loc(WE))
     W = X.fn('Actor::withdraw_balance', CR)
+    nx = sendsmod.exit_code_rule(X, rep, sendsmod.all_sends(prog, crates=(CR,)), {})
+    rep.floor('K8', 'market_send_sites_exit_code', nx, 12)
     snd = [c for c in W.calls if sendsmod.is_send(c)]
     rep.need('K5', 'withdraw:send', len(snd) == 1, 'one withdrawal send', X.loc(W))
     for c in snd:
@@ -188,6 +190,28 @@ def run(prog, rep, tier, cfg):
                  'everybody else withdraws to, and only by, itself', X.loc(EA))
     X.guard('K6b', 'escrow_address:miner-branch', EA, [c.bb for c in EA.calls if callee_is('request_miner_control_addrs')(c)],
             m_rel('eq', ['C:Runtime::resolve_builtin_actor_type'], ['E:Type::Miner'], True), 'control addresses are requested only for miner actors')
+    # the other end of escrow_address for miners: the market asks the miner itself, and the miner answers with its owner / worker
+    RM = X.fn('request_miner_control_addrs', CR)
+    q = [c for c in RM.calls if sendsmod.is_send(c)]
+    rep.need('K5', 'control-addrs:query', len(q) == 1 and result_fate(RM, q[0]) == 'try', 'one ControlAddresses query, propagated', X.loc(RM))
+    for c in q:
+        X.arg_has('K10', 'control-addrs:asks-the-miner', c, 1, ['P:2'], 'the query goes to the miner whose escrow is concerned')
+        X.arg_has('K10', 'control-addrs:method', c, 2, ['K:CONTROL_ADDRESSES_METHOD'], 'ControlAddresses')
+    rc = {i: ret_components(prog, RM, i) for i in (0, 1)}
+    for i, fld, other in ((0, 'owner', 'worker'), (1, 'worker', 'owner')):
+        rep.need('K10', 'control-addrs:component-%d-is-%s' % (i, fld), len(rc[i]) == 1 and has_atom(rc[i][0], 'F:GetControlAddressesReturnParams.' + fld) and
+                 not has_atom(rc[i][0], 'F:GetControlAddressesReturnParams.' + other) and not has_atom(rc[i][0], 'F:GetControlAddressesReturnParams.control_addresses'),
+                 'component %d of the reply is the miner\'s %s' % (i, fld), X.loc(RM))
+    X.const_is('K11', 'CONTROL_ADDRESSES_METHOD', 2, CR)
+    import dispatch as _dispatch
+    ents = [e for e in _dispatch.extract(prog)[0] if e.crate == 'fil_actor_miner' and e.variant == 'ControlAddresses']
+    rep.need('K1', 'control-addrs:miner-method-2', len(ents) == 1 and str(ents[0].number) == '2' and ents[0].handler.endswith('control_addresses'),
+             'miner method 2 dispatches to control_addresses (found %s)' % [(e.number, e.handler) for e in ents], None)
+    MCA = X.fn('Actor::control_addresses', 'fil_actor_miner')
+    for fld, others in (('owner', ('worker', 'beneficiary', 'pending_owner_address', 'control_addresses')), ('worker', ('owner', 'beneficiary', 'control_addresses', 'pending_worker_key')),
+                        ('control_addresses', ('beneficiary',))):
+        X.value_from('K10', 'control-addrs:miner-reports-%s' % fld, MCA, X.agg_field_atoms(MCA, 'GetControlAddressesReturn', fld), ['F:MinerInfo.' + fld, 'C:get_miner_info'],
+                     'the reported %s is the miner info\'s %s' % (fld, fld), forbid=['F:MinerInfo.' + o for o in others], copy=True)
     AB = X.fn('Actor::add_balance', CR)
     for g in prog.family(AB):
         for c in g.calls:
